@@ -59,7 +59,10 @@ def w_yxt(w, cfg):
     kwargs = {}
     if (c0, c1) != (0, T) or cfg.get("explicit"):
         kwargs = {"cal_start": c0, "cal_stop": c1}
+    it.A.shadow = True            # float64 shadows on the concrete counts / shares (DESIGN 4.2 "float shadows")
     res = it.call_function(st, fn, [cube, nd], kwargs)
+    kernel_obs = [ob for ob in it.obligations if ob.kind == "float-divergence"]
+    it.A.shadow = False
     if not hasattr(res, "positions") or res.shape != (1, npx, T):
         raise Unsupported("gammastd_yxt result shape")
     got = [st.heap[res.bufid][p] for p in res.positions()]
@@ -73,6 +76,9 @@ def w_yxt(w, cfg):
         pix = [[C.model_value(m, c) for c in px.cells(nd)]] + ([[C.model_value(m, c) for c in py.cells(nd)]] if two else [])
         return {"entry": "yxt", "pixels": pix, "nodata": C.model_value(m, nd), "window": [c0, c1]}
     w.discharge("gammastd_yxt.dtype_int16", [], z3.BoolVal(res.dtype == "int16"), concretize=conc)
+    for k, ob in enumerate(kernel_obs):
+        # a threshold comparison on a concrete share that float64 decides differently from the exact value
+        w.discharge(f"gammastd_yxt.float_divergence[{k}]@{ob.where}", assume, ob.claim, guard=ob.guard, concretize=conc)
     for i in range(T):
         w.discharge(f"gammastd_yxt.pixel0[{i}]", assume, eq(got[i], ref0[i]), lemmas=lem, concretize=conc, sample=(i == 0),
                     first_timeout_ms=min(w.timeout_ms, 60000))
@@ -100,8 +106,11 @@ def w_grp(w, cfg):
     out = C.make_out(it, st, (T,), "int16", "yy")
     xx = it.new_array(st, (T,), "int16", cells=px.cells(nd))
     xx.readonly = True
+    it.A.shadow = True
     it.call_function(st, fn, [xx, it.new_array(st, (T,), "int16", cells=list(groups)), ng, z3.ToReal(nd),
                               it.new_array(st, (ng, 2), "int16", cells=calflat), out])
+    kernel_obs = [ob for ob in it.obligations if ob.kind == "float-divergence"]
+    it.A.shadow = False
     got, written = C.out_values(it, st, out)
     w.res.encoded.update(it.encoded)
     cells = px.cells(nd)
@@ -110,6 +119,8 @@ def w_grp(w, cfg):
 
     def conc(m):
         return {"entry": "grp", "pixels": [[C.model_value(m, c) for c in cells]], "nodata": C.model_value(m, nd), "groups": groups, "cal": cal}
+    for k, ob in enumerate(kernel_obs):
+        w.discharge(f"gammastd_grp.float_divergence[{k}]@{ob.where}", assume, ob.claim, guard=ob.guard, concretize=conc)
     for g in range(ng):
         sub = [cells[i] for i in members[g]]
         ref = ref_scaled(it, st, sub, nd, cal[g][0], cal[g][1])
@@ -140,6 +151,11 @@ def configs(tier):
                 if T == 5 and win not in ((0, 5), (1, 4), (0, 3), (2, 5)):
                     continue
                 cf.append({"kind": "yxt", "T": T, "missing": list(classes), "window": win})
+    # the 90 % boundary of the zero share, with two and three positive values (18/20, 27/30)
+    cf.append({"kind": "yxt", "T": 20, "missing": ["z"] * 9 + ["p"] + ["z"] * 9 + ["p"], "window": (0, 20)})
+    if tier == "thorough":
+        cf.append({"kind": "yxt", "T": 30, "missing": ["z"] * 27 + ["p"] * 3, "window": (0, 30)})
+        cf.append({"kind": "yxt", "T": 20, "missing": ["z"] * 17 + ["p"] * 3, "window": (0, 20)})
     for missing, win in ((["p"] * 3, (0, 3)), (["m", "p", "p"], (1, 3)), (["m", "m", "m"], (0, 3)), (["z", "p", "n"], (0, 3))):
         cf.append({"kind": "yxt", "T": 3, "missing": missing, "window": win, "two_pixels": True})
     cf.append({"kind": "yxt", "T": 3, "missing": [False] * 3, "window": (0, 3), "explicit": True})
@@ -147,6 +163,8 @@ def configs(tier):
              ([0, 0, 0], [[1, 3]]), ([0, 1, 0, 1, 0], [[1, 3], [0, 2]]))
     big = (([0, 1, 0, 1, 0, 1], [[0, 3], [0, 3]]), ([0, 1, 0, 1, 0, 1], [[1, 3], [0, 2]]), ([0, 0, 0, 1, 1, 1], [[0, 2], [1, 3]]),
            ([1, 0, 1, 0, 1, 0], [[0, 3], [1, 3]]))
+    # a group exactly at the 90 % boundary (18 zeros, 2 positives)
+    cf.append({"kind": "grp", "groups": [0] * 20, "missing": ["z"] * 18 + ["p"] * 2, "cal": [[0, 20]]})
     for groups, cal in (small if tier == "quick" else small + big):
         T = len(groups)
         for missing in (["p"] * T, ["m" if i == 1 else "p" for i in range(T)], ["z" if i == 0 else ("n" if i == 3 else "p") for i in range(T)],
@@ -193,8 +211,11 @@ def main(tier, seed, nproc=None):
     chk.assumptions = ["the claim is the WIRING around the numerical kernels: brentq(xa, xb, s) is 'the root in the bracket or 0', digamma / gammainc / "
                        "ndtri / log / sqrt are uninterpreted and shared by kernel and reference - their numerics (convergence, accuracy, float32 logs) "
                        "are outside", "observations are integers |x| <= 10000 of any sign, the nodata value is negative (a non-negative sentinel would "
-                       "enter the zero / positive counts - outside this claim)", "results outside int16 are outside (C08)"]
-    chk.bounds = {"T": "3..4 quick / 5 thorough; every pattern of <= 2 nodata cells; every calibration window with >= 2 steps",
+                       "enter the zero / positive counts - outside this claim)", "results outside int16 are outside (C08)",
+                       "concrete counts and shares carry float64 shadows: a comparison the double decides differently from the exact value is an "
+                       "obligation (float-divergence); all other floats are exact reals"]
+    chk.bounds = {"T": "3..4 quick / 5 thorough; every pattern of <= 2 nodata cells; every calibration window with >= 2 steps; plus pixels of "
+                       "20 (30) steps exactly at the 90 % zero share",
                   "drivers": "gammastd_yxt on a 1x2 cube (second pixel all valid), gammastd_grp for interleaved / blocked / single groups"}
     chk.outside = ["Brent convergence, SciPy special-function accuracy, |SPI| > 7", "float32 inputs", "series longer than the bound"]
     validate(chk, seed)
